@@ -141,6 +141,9 @@ func (x *Exec) globalValue(s *State, v *types.Var) *Term {
 	}
 	srt := x.u.sortOf(v.Type())
 	if x.u.isConstGlobal(v) {
+		if t := x.u.constInit(v); t != nil {
+			return withType(t, v.Type())
+		}
 		return withType(V(name, srt), v.Type())
 	}
 	return withType(x.getSt(s, name, srt), v.Type())
